@@ -248,6 +248,50 @@ func checkC04(c C04Case, r *Rec) *Violation {
 			}
 		}
 
+		// the library's own contexts. Every value supplied: TryEval and Eval agree on it, whatever
+		// fetcher the layout selects. A layout that selects the map-backed fetcher (undefined-variable
+		// mode, or a key outside 0..255) holds exactly the supplied names, i.e. it reports availability
+		// truthfully: TryEval over it answers what it answers over the harness's fetcher with the same
+		// availability (values only: a failing or unbound variable is simply not supplied).
+		{
+			supplied := map[string]interface{}{}
+			allSupplied := true
+			for _, vd := range u.Vars {
+				if vd.Mode == 0 && avail[vd.Name] {
+					supplied[vd.Name] = vd.Val.X
+				} else {
+					allSupplied = false
+				}
+			}
+			mapSelected := cc.CompileOptions[eval.AllowUndefinedVariable] || len(cc.VariableKeyMap) == 0
+			for _, k := range cc.VariableKeyMap {
+				if k < 0 || k > 255 {
+					mapSelected = true
+				}
+			}
+			if allSupplied {
+				ctx := eval.NewCtxFromVars(cc, supplied)
+				ot := Safe(func() (eval.Value, error) { return e.TryEval(ctx) })
+				oe := Safe(func() (eval.Value, error) { return e.Eval(eval.NewCtxFromVars(cc, supplied)) })
+				if !SameOutcomeLoose(ot, oe) {
+					return Violf("C04: every variable is supplied to NewCtxFromVars (%T), yet TryEval and Eval disagree\n%s\nkey map=%v\nTryEval=%v\nEval=%v", ctx.VariableFetcher, describe(), cc.VariableKeyMap, ot, oe)
+				}
+				r.Class("library-context:all-supplied")
+			} else if mapSelected {
+				ctx := eval.NewCtxFromVars(cc, supplied)
+				ot := Safe(func() (eval.Value, error) { return e.TryEval(ctx) })
+				hf := &Fetcher{Vars: supplied, Avail: map[string]bool{}, Log: &Log{}}
+				for n := range supplied {
+					hf.Avail[n] = true
+				}
+				oh := Safe(func() (eval.Value, error) { return e.TryEval(hf.Ctx()) })
+				if !SameOutcomeLoose(ot, oh) {
+					return Violf("C04: TryEval over NewCtxFromVars(available values) (%T) differs from TryEval over a fetcher that reports exactly those variables as available\n%s\nsupplied=%v\nkey map=%v\nlibrary context=%v\ntruthful fetcher=%v", ctx.VariableFetcher, describe(), supplied, cc.VariableKeyMap, ot, oh)
+				}
+				r.Class("library-context:map-backed")
+			}
+		}
+
 		if o.Err != nil || o.Val == eval.DNE {
 			continue
 		}
@@ -323,7 +367,7 @@ func SameOutcomeLoose(a, b Outcome) bool {
 
 var propC04 = Prop[C04Case]{
 	ID:    "C04",
-	Rule:  "typed random expression (failing operands allowed) x optimization subsets (4 drawn in quick, all 16 in thorough) x available/unavailable split (unbound variables are never available) x completions of the unavailable variables (full product of small per-type domains incl. the tree's own literals +-1 when <= 64, else 64 drawn); oracles: a definite TryEval answer equals the engine's Eval under every completion for which Eval succeeds; with everything available TryEval and Eval agree (same value or both an error); a definite answer is unchanged under a larger availability set; TryEvalBool mirrors TryEval. Non-trivial = at least one variable unavailable, TryEval definite, >= 2 completions evaluated; distinct by source + split + binding",
+	Rule:  "typed random expression (failing operands allowed) x optimization subsets (4 drawn in quick, all 16 in thorough) x available/unavailable split (unbound variables are never available) x completions of the unavailable variables (full product of small per-type domains incl. the tree's own literals +-1 when <= 64, else 64 drawn); oracles: a definite TryEval answer equals the engine's Eval under every completion for which Eval succeeds; with everything available TryEval and Eval agree (same value or both an error); a definite answer is unchanged under a larger availability set; TryEvalBool mirrors TryEval; through the library's own contexts: with every value supplied to NewCtxFromVars TryEval and Eval agree, and over a map-backed context holding the available values TryEval answers as over a truthful fetcher with that availability. Non-trivial = at least one variable unavailable, TryEval definite, >= 2 completions evaluated; distinct by source + split + binding",
 	Gen:   genC04,
 	Check: checkC04,
 }
